@@ -215,7 +215,7 @@ func C17_Jobs() []string {
 	for _, op := range c17NotOps {
 		out = append(out, "not/"+op)
 	}
-	out = append(out, "not-scope", "not-empty-arg", "lastcall/int", "lastcall/str", "lastcall/slice", "lastcall/options", "options/local", "coercer/local", "shared/fields", "shared/slice")
+	out = append(out, "not-scope", "not-empty-arg", "lastcall/int", "lastcall/str", "lastcall/slice", "lastcall/options", "options/local", "options/shared-test", "coercer/local", "coercer/slice", "shared/fields", "shared/slice")
 	return out
 }
 func C17_Covers() []string { return []string{"checked"} }
@@ -333,6 +333,25 @@ func C17_Run(job string) {
 	case "lastcall":
 		c17LastCall(b)
 	case "options":
+		if b == "shared-test" {
+			// a reusable Test value (z.TestFunc) copied and given different options: each copy
+			// reports with its own code, message, path and params
+			base := z.TestFunc("base_code", func(val any, c z.Ctx) bool { return false }, z.Message("base message"))
+			ta, tb := base, base
+			z.Message("A")(&ta)
+			z.IssueCode("code_a")(&ta)
+			z.IssuePath("path.b")(&tb)
+			z.Params(map[string]any{"p": 1})(&tb)
+			var d int
+			x := v.Int("x")
+			errs := z.Int().Test(base).Test(ta).Test(tb).Parse(x, &d)
+			v.Assert(len(errs) == 3, "C17:options-changed-the-verdict")
+			v.Assert(errs[0].Code == "base_code" && errs[0].Message == "base message" && errs[0].Path == "", "C17:options-leaked-to-another-test")
+			v.Assert(errs[1].Code == "code_a" && errs[1].Message == "A", "C17:options-not-applied")
+			v.Assert(errs[2].Code == "base_code" && errs[2].Path == "path.b" && len(errs[2].Params) == 1, "C17:options-not-applied")
+			v.Cover("checked")
+			return
+		}
 		// options passed to one test do not appear on another
 		g, l := v.Int("g"), v.Int("l")
 		x := v.Int("x")
@@ -348,6 +367,19 @@ func C17_Run(job string) {
 		}
 		v.Assert(len(errs) == v.B2I(!(x > g))+v.B2I(!(x < l)), "C17:options-changed-the-verdict")
 	case "coercer":
+		if b == "slice" {
+			// WithCoercer on a slice schema replaces the coercion of that schema for every input
+			calls := 0
+			k := v.Int("k")
+			cs := func(x any) (any, error) { calls++; return []any{k}, nil }
+			var d1, d2 []int
+			e1 := z.Slice(z.Int(), z.WithCoercer(cs)).Parse([]any{1, 2}, &d1)
+			e2 := z.Slice(z.Int()).Parse([]any{1, 2}, &d2)
+			v.Assert(e1 == nil && calls == 1 && len(d1) == 1 && d1[0] == k, "C17:withcoercer-not-applied")
+			v.Assert(e2 == nil && len(d2) == 2 && d2[0] == 1, "C17:withcoercer-leaked")
+			v.Cover("checked")
+			return
+		}
 		k := v.Int("k")
 		co := func(x any) (any, error) { return k, nil }
 		a1 := z.Int(z.WithCoercer(co))
